@@ -25,16 +25,16 @@ VARIABLE l      \* next line to consume
 tvars == <<l>>
 
 LineOK(e) ==
-  LET G   == Guards(e.sys, e.par, e.st, e.pf)
-      E   == Eqs(e.sys, e.par, e.st, e.pf, e.ch)
-      mine == G @@ E
-      o   == Outcome(e.sys, e.par, e.st, e.pf, e.ch)
-      bad == {k \in DOMAIN mine : k \notin DOMAIN e.vec \/ e.vec[k] # mine[k]}
-  IN  /\ \/ (DOMAIN e.vec = DOMAIN mine /\ bad = {})
-         \/ ~PrintT(<<"VEC_MISMATCH", e.id, e.sys, bad>>)
-      /\ \/ e.out = "na"
-         \/ e.out = o
-         \/ ~PrintT(<<"OUT_MISMATCH", e.id, e.sys, "model", o, "real", e.out>>)
+  LET G     == Guards(e.sys, e.par, e.st, e.pf)
+      E     == Eqs(e.sys, e.par, e.st, e.pf, e.ch)
+      mine  == G @@ E
+      o     == Outcome(e.sys, e.par, e.st, e.pf, e.ch)
+      bad   == {k \in DOMAIN mine : k \notin DOMAIN e.vec \/ e.vec[k] # mine[k]}
+      vecOK == DOMAIN e.vec = DOMAIN mine /\ bad = {}
+      outOK == e.out = "na" \/ e.out = o
+  IN  (* IF, not a disjunction: TLC would try every disjunct of an action and print for each *)
+      IF vecOK /\ outOK THEN TRUE
+      ELSE PrintT(<<"LINE_MISMATCH", e.id, e.sys, "vector entries", bad, "model", o, "real", e.out>>) /\ FALSE
 
 TraceInit == l = 1
 TraceNext == l <= Len(TraceLog) /\ LineOK(TraceLog[l]) /\ l' = l + 1
